@@ -989,6 +989,15 @@ impl HttpProxy {
         self.listeners.get(token).cloned()
     }
 
+    /// Tokens of the listeners bound to `address`
+    pub fn listener_tokens(&self, address: &SocketAddr) -> Vec<Token> {
+        self.listeners
+            .iter()
+            .filter(|(_, listener)| listener.borrow().address == *address)
+            .map(|(token, _)| *token)
+            .collect()
+    }
+
     pub fn remove_listener(&mut self, remove: RemoveListener) -> Result<(), ProxyError> {
         let len = self.listeners.len();
         let remove_address = remove.address.into();
